@@ -327,7 +327,7 @@ class ClassInfo:
 
 
 class Module:
-    def __init__(self, name: str, path: str, rel: str, source: str) -> None:
+    def __init__(self, name: str, path: str, rel: str, source: str, unstable_attrs: Optional[set] = None) -> None:
         self.name = name
         self.path = path
         self.rel = rel
@@ -339,7 +339,13 @@ class Module:
         self.inlined_calls, self.inlined_helpers = inline_unknown_helpers(tree)
         st = _StripTypeChecking()
         cn = _Canonical()
-        self.tree = ast.fix_missing_locations(cn.visit(st.visit(tree)))
+        tree = ast.fix_missing_locations(cn.visit(st.visit(tree)))
+        from .lp import propagate_locals, baseline_keep
+
+        self.propagated_locals, self.propagated_names = propagate_locals(tree, baseline_keep(rel), unstable_attrs)
+        if self.propagated_locals:
+            tree = ast.fix_missing_locations(_Canonical().visit(tree))
+        self.tree = tree
         self.type_checking_blocks = st.stripped
         self.canonical_rewrites = cn.rewrites
         self.is_package = os.path.basename(path) == '__init__.py'
@@ -370,6 +376,7 @@ class Program:
     # ------------------------------------------------------------------ load
     def _load(self) -> None:
         shadows = []
+        sources: List[Tuple[str, str, str, str]] = []
         for dirpath, dirnames, filenames in os.walk(self.root):
             dirnames[:] = [d for d in sorted(dirnames) if d != '__pycache__']
             for fn in sorted(filenames):
@@ -384,10 +391,19 @@ class Program:
                     modrel = modrel[: -len('.__init__')]
                 with open(full, encoding='utf-8') as fh:
                     src = fh.read()
-                try:
-                    self.modules[modrel] = Module(modrel, full, rel, src)
-                except SyntaxError as e:
-                    raise AnalysisError(f'{rel} does not parse: {e}') from e
+                sources.append((modrel, full, rel, src))
+        # attribute names that any routine of the program (outside constructors) stores to: reads of those are state
+        from .lp import stored_attrs
+
+        unstable: set = set()
+        for modrel, full, rel, src in sources:
+            try:
+                unstable |= stored_attrs(ast.parse(src, filename=full))
+            except SyntaxError as e:
+                raise AnalysisError(f'{rel} does not parse: {e}') from e
+        self.unstable_attrs = unstable
+        for modrel, full, rel, src in sources:
+            self.modules[modrel] = Module(modrel, full, rel, src, unstable)
         if shadows:
             raise AnalysisError(
                 'compiled extension(s) shadow analysed modules; the executed program is not the analysed one: '
